@@ -292,8 +292,57 @@ def meta_read_rule(ck, P):
             ck.check(okr, "R-META-READ", b["q"] + "|read", "the member's bytes are read to the end into the buffer that becomes the blob", "the tar metadata helper does not read the member into the blob it returns", ir.loc(b))
 
 
+def json_guard_rule(ck, P):
+    """R-JSON-GUARD: the JSON parser reports an error when a structural byte DIFFERS from the expected one ('{', ':', '[', ',', '}' …),
+    never when it equals it; and every element that is parsed is kept (arrays push each value, objects hand each value to the callback)."""
+    from . import wire, mvt
+    fns = [b for b in P.bodies if b["q"].startswith("versatiles_core::byte_iterator::basics::parse_") or b["q"].startswith("versatiles_core::json::parse::")]
+    if not ck.anchor("R-JSON-GUARD", "JSON parser functions", fns, 6):
+        return
+    n_err, bad = wire.error_guard_polarity(fns)
+    ck.check(not bad and n_err >= 6, "R-JSON-GUARD", "parser|guards", "no parser function fails because a byte EQUALS the expected delimiter (%d error exits)" % n_err,
+             "the JSON parser rejects well-formed input: %s" % bad[:3])
+    # delimiter alphabet of the two container parsers (RFC 8259 §2)
+    for nm, want in (("parse_object_entries", {ord("{"), ord("}"), ord(":"), ord(","), ord('"')}), ("parse_array_entries", {ord("["), ord("]"), ord(",")})):
+        fb = [b for b in fns if b["q"].endswith("basics::" + nm)]
+        if not fb:
+            continue
+        got = set()
+
+        def coll(x):
+            if isinstance(x, dict):
+                if x.get("k") == "lit" and x.get("lk") in ("int", "byte", "char") and isinstance(x.get("v"), int) and 32 < x["v"] < 127:
+                    got.add(x["v"])
+                elif x.get("k") == "lit" and x.get("lk") in ("byte", "char") and isinstance(x.get("v"), str) and len(x["v"]) == 1:
+                    got.add(ord(x["v"]))
+                for v in x.values():
+                    coll(v)
+            elif isinstance(x, (list, tuple)):
+                for v in x:
+                    coll(v)
+        coll(fb[0]["body"])
+        ck.check(got == want, "R-JSON-GUARD", fb[0]["q"] + "|delimiters", "%s tests exactly the delimiters %s" % (nm, sorted(chr(c) for c in want)),
+                 "%s tests the bytes %s, RFC 8259 has %s" % (nm, sorted(chr(c) for c in got), sorted(chr(c) for c in want)), ir.loc(fb[0]))
+    po = [b for b in fns if b["q"].endswith("basics::parse_object_entries")]
+    if po:
+        cb = [y for y in ir.walk_nodes(po[0]["body"]) if y.get("k") == "call" and "f" in y]
+        from . import mvt as _m
+        lp = [n for n in ir.walk_nodes(po[0]["body"]) if n.get("k") in ("loop", "while")]
+        cnt = _m.exit_counts(P, {"body": lp[0]["body"]}, lambda y: 1 if (y.get("k") == "call" and "f" in y) else None) if lp else set()
+        ck.check(len(cb) == 1 and (cnt <= {0, 1} and 1 in cnt), "R-JSON-GUARD", po[0]["q"] + "|kept", "every member that is parsed is handed to the value callback once", "object members are not handed to the callback once per member (%s)" % sorted(cnt), ir.loc(po[0]))
+    pa = [b for b in fns if b["q"].endswith("basics::parse_array_entries")]
+    if pa:
+        b = pa[0]
+        pv = [y for y in ir.walk_nodes(b["body"]) if y.get("k") in ("call", "mcall") and y.get("f") is not None or (y.get("k") == "call" and "f" in y)]
+        calls = [y for y in ir.walk_nodes(b["body"]) if y.get("k") == "call" and "f" in y]       # calls of the parse_value callback parameter
+        pushed = [y for y in ir.walk_nodes(b["body"]) if y.get("k") == "mcall" and y.get("name") == "push" and y.get("a") and ir.contains(y["a"][0], lambda z: z.get("k") == "call" and "f" in z)]
+        ck.check(len(calls) >= 2 and len(pushed) == len(calls), "R-JSON-GUARD", b["q"] + "|kept", "every array element that is parsed is pushed to the result (%d parse site(s))" % len(calls),
+                 "an array element is parsed but not kept (%d parsed, %d pushed)" % (len(calls), len(pushed)), ir.loc(b))
+
+
 def rules(ck, P):
     merge_rule(ck, P)
+    json_guard_rule(ck, P)
     meta_read_rule(ck, P)
     mbtiles_meta_rule(ck, P)
     esc = [b for b in P.bodies if b["q"].endswith("json::stringify::escape_json_string")]
